@@ -365,6 +365,75 @@ func checkAliasHarvest(run *core.Run, prog *load.Program) {
 		r := f.Explore(0, 0, cfgx.Cuts{Decide: dec})
 		run.Check("G-IMPORT/harvest", "never-"+map[string]string{".": "dot", "_": "blank"}[bad], prog.Pos(st.Pos()), !r.Passed(nodeHolding(f, st)), fmt.Sprintf("an import named %q in the source can be harvested as an alias: the generated file would contain a %s import", bad, map[string]string{".": "dot", "_": "blank"}[bad]))
 	}
+	// a proper alias is always stored: no further condition (e.g. "only if the path has none yet") decides
+	{
+		decValid := func(cond ast.Expr) (bool, bool) {
+			var ev func(e ast.Expr) (bool, bool)
+			ev = func(e ast.Expr) (bool, bool) {
+				e = ast.Unparen(e)
+				if be, ok := e.(*ast.BinaryExpr); ok {
+					switch be.Op {
+					case token.LAND:
+						lt, lf := ev(be.X)
+						rt, rf := ev(be.Y)
+						return lt && rt, lf || (lt && rf)
+					case token.LOR:
+						lt, lf := ev(be.X)
+						rt, rf := ev(be.Y)
+						return lt || (lf && rt), lf && rf
+					case token.EQL, token.NEQ:
+						for _, pair := range [][2]ast.Expr{{be.X, be.Y}, {be.Y, be.X}} {
+							if strings.HasSuffix(types.ExprString(pair[0]), ".Name.Name") {
+								if tv := info.Types[pair[1]]; tv.Value != nil && tv.Value.Kind() == constant.String {
+									c := constant.StringVal(tv.Value)
+									if c == "." || c == "_" || c == "" {
+										return be.Op == token.NEQ, be.Op == token.EQL // the alias is a proper identifier
+									}
+								}
+							}
+							if strings.HasSuffix(types.ExprString(pair[0]), ".Name") {
+								if id, ok := ast.Unparen(pair[1]).(*ast.Ident); ok {
+									if _, isNil := info.Uses[id].(*types.Nil); isNil {
+										return be.Op == token.NEQ, be.Op == token.EQL
+									}
+								}
+							}
+						}
+					}
+				}
+				if u, ok := e.(*ast.UnaryExpr); ok && u.Op == token.NOT {
+					t, fl := ev(u.X)
+					return fl, t
+				}
+				return true, true
+			}
+			return ev(cond)
+		}
+		// start inside the innermost loop body that holds the store; the next iteration must not be reachable without it
+		for _, enc := range enclosing(f.Decl.Body, st) {
+			rs, ok := enc.(*ast.RangeStmt)
+			if !ok || len(rs.Body.List) == 0 {
+				continue
+			}
+			inner := true
+			for _, e2 := range enclosing(rs.Body, st) {
+				if _, isR := e2.(*ast.RangeStmt); isR {
+					inner = false
+				}
+			}
+			if !inner {
+				continue
+			}
+			bb, bi := firstNodeWithin(f, rs.Body)
+			if bb < 0 {
+				continue
+			}
+			r := f.Explore(bb, bi, cfgx.Cuts{Decide: decValid, Nodes: map[ast.Node]bool{st: true}})
+			skipped := len(r.Exits) > 0 || r.Passed(rs.X) || (rs.Key != nil && r.Passed(rs.Key))
+			// go/cfg re-enters the range header for the next iteration
+			run.Check("G-IMPORT/harvest", "always-stored", prog.Pos(st.Pos()), !skipped, "an import spec with a proper alias can be skipped by a further condition (e.g. when the path already has an alias): which alias is kept for a path then depends on more than the last spec seen, and an alias moq reads back from its own output can lose against another one")
+		}
+	}
 	// a missing name (no alias) stores nothing
 	dec := func(cond ast.Expr) (bool, bool) {
 		s := types.ExprString(cond)
@@ -514,6 +583,67 @@ func CheckPure(run *core.Run, prog *load.Program, rule string) {
 			return true
 		})
 		run.Check(rule, n, prog.Pos(decl.Pos()), len(bad) == 0, fmt.Sprintf("%s, which the template reaches, writes to %v: a rendering helper that stores state (a cache, a rename) makes the output depend on when it is first called — e.g. a type string frozen before a later interface forces an import to be re-aliased", n, bad))
+	}
+	// the template functions (function literals of the FuncMap)
+	tp := prog.Moq[load.PkgTemplate]
+	if tp != nil {
+		for _, file := range tp.Syntax {
+			ast.Inspect(file, func(n ast.Node) bool {
+				kv, ok := n.(*ast.KeyValueExpr)
+				if !ok {
+					return true
+				}
+				fl, ok := ast.Unparen(kv.Value).(*ast.FuncLit)
+				if !ok {
+					return true
+				}
+				key := types.ExprString(kv.Key)
+				var bad []string
+				ast.Inspect(fl.Body, func(x ast.Node) bool {
+					switch st := x.(type) {
+					case *ast.AssignStmt:
+						for _, l := range st.Lhs {
+							switch ast.Unparen(l).(type) {
+							case *ast.SelectorExpr, *ast.IndexExpr, *ast.StarExpr:
+								root := l
+								for {
+									switch e := ast.Unparen(root).(type) {
+									case *ast.SelectorExpr:
+										root = e.X
+										continue
+									case *ast.IndexExpr:
+										root = e.X
+										continue
+									case *ast.StarExpr:
+										root = e.X
+										continue
+									}
+									break
+								}
+								if id, ok := ast.Unparen(root).(*ast.Ident); ok {
+									if v, ok := tp.TypesInfo.ObjectOf(id).(*types.Var); ok && v.Parent() == v.Pkg().Scope() {
+										bad = append(bad, types.ExprString(l))
+									}
+								}
+							}
+						}
+					case *ast.Ident:
+						v, ok := tp.TypesInfo.Uses[st].(*types.Var)
+						if !ok || v.Pkg() == nil || v.Parent() != v.Pkg().Scope() || !prog.IsMoqPkg(v.Pkg()) {
+							return true
+						}
+						switch types.TypeString(v.Type(), nil) {
+						case "string", "[]string", "*strings.Replacer", "text/template.FuncMap":
+						default:
+							bad = append(bad, "package-level "+v.Name()+" ("+types.TypeString(v.Type(), nil)+")")
+						}
+					}
+					return true
+				})
+				run.Check(rule, "template func "+key, prog.Pos(fl.Pos()), len(bad) == 0, fmt.Sprintf("the template function %s uses mutable package-level state %v: what it returns then depends on what was rendered before (other interfaces of the run, earlier runs of the process)", key, bad))
+				return true
+			})
+		}
 	}
 	run.Floor(rule, 8)
 }
